@@ -16,4 +16,5 @@ def run(ctx):
     obs += cp.sep_rule(ctx, 'C19')
     obs += cp.separator_condition_rule(ctx, 'C19')
     obs += cp.step_rules(ctx, 'C19')
+    obs += cp.source_token_rules(ctx, 'C19')
     return obs
